@@ -19,7 +19,7 @@ ID = "C04"
 GO_PKG = "./api/handler"
 PKGS = {"parser": ("./api/token", "^TestVerifDriver$"), "jwt": ("./api/handler", "^TestVerifDriver$"),
         "sig": ("./api/handler", "^TestVerifDriver$"), "rpc": ("./rpc/internal/auth", "^TestVerifDriver$"),
-        "grp": ("./api", "^TestVerifDriverC04$"), "rpci": ("./rpc/internal/serverinterceptors", "^TestVerifDriverC04$")}
+        "grp": ("./api", "^TestVerifDriverC04$"), "ejwt": ("./api", "^TestVerifDriverC04$"), "rpci": ("./rpc/internal/serverinterceptors", "^TestVerifDriverC04$")}
 
 _A = "api/handler/authhandler.go"
 _T = "api/token/tokenparser.go"
@@ -75,7 +75,7 @@ RULE = ("mix of 4 case kinds: parser histories (22%: 1-60 requests through one t
         "{s1,s2,s3}, algs HS256/384/512/none/RS256-junk, exp/nbf/iat at +-1h and at +40..250 s with the jwt clock (jwt.TimeFunc) moving 20..3000 s between requests, truncated/flipped/garbage tokens, "
         "Bearer/bearer/absent schemes), signed requests (43%: correctly signed + every single-field tampering + key/secret/"
         "fingerprint/header defects + timestamps at tol-1,tol,tol+1,+-5 and extreme/non-numeric values, strict and non-strict, "
-        "all methods, X-Request-Uri, encrypted bodies; body framing in {declared Content-Length, unknown length -1 via an opaque reader, chunked through a real httptest.Server, declared length through a real server, empty body} x {correct, body tampered, signed-for-empty-body with a body sent}), route groups on one engine (8%: 2-3 WithSignature groups with their own fingerprint->key tables over 3 RSA keys generated at run time, every (fp,key) pair in use sent to every group), RPC interceptor histories (9%: Unary/Stream interceptors with FullMethod names incl. health/reflection/empty), RPC authenticator histories (7%: miniredis hash contents x metadata "
+        "all methods, X-Request-Uri, encrypted bodies; body framing in {declared Content-Length, unknown length -1 via an opaque reader, chunked through a real httptest.Server, declared length through a real server, empty body} x {correct, body tampered, signed-for-empty-body with a body sent}), route groups on one engine (8%: 2-3 WithSignature groups with their own fingerprint->key tables over 3 RSA keys generated at run time, every (fp,key) pair in use sent to every group), JWT route groups built by the engine from api.WithJwt/WithJwtTransition with previous secrets of every length 0..33 and current secrets around the 8-byte limit (5.5%), RPC floods (2%: 1500-4000 calls for apps without stored token, then right/forged tokens on 5-9 fresh known apps), RPC interceptor histories (7%: Unary/Stream interceptors with FullMethod names incl. health/reflection/empty), RPC authenticator histories (7%: miniredis hash contents x metadata "
         "shapes x strict x outages); the thorough tier adds the original and all 6 single-field/key tamperings of 200 base requests. non-trivial = a history with both an accepted and a refused request / a signed request "
         "on a guarded method with a parsable header / an RPC history with both outcomes; distinct = distinct canonical case JSON")
 TRUSTED = ["golang-jwt/jwt v4 (signature + time-claim verdict per (Authorization header, secret) tabulated by the driver by "
@@ -448,6 +448,63 @@ def gen_rpci(rng):
     return c
 
 
+def _secret_of_len(rng, n, tag):
+    alphabet = "abcdefghijklmnopqrstuvwxyzABCDEFGHIJKLMNOPQRSTUVWXYZ0123456789-_"
+    return (tag + "".join(rng.choice(alphabet) for _ in range(n)))[:n] if n > 0 else ""
+
+
+def gen_ejwt(rng):
+    """JWT-protected route groups configured through the public route options on one engine: WithJwt(secret),
+    WithJwtTransition(secret, prev) with previous secrets of EVERY length (0 = no transition, 1..7, longer), unprotected
+    groups, and a few current secrets below 8 bytes (the option panics); tokens signed with each secret in play"""
+    groups = []
+    for gi in range(rng.choice([2, 3, 4])):
+        r = rng.random()
+        slen = rng.choice([8, 9, 16, 32, 40]) if rng.random() < 0.92 else rng.choice([0, 1, 5, 7])
+        secret = _secret_of_len(rng, slen, "c%d" % gi)
+        if r < 0.1:
+            groups.append({"opt": "none", "secret": "", "prev": ""})
+        elif r < 0.3:
+            groups.append({"opt": "jwt", "secret": secret, "prev": ""})
+        else:
+            plen = rng.choice([0, 1, 2, 3, 4, 5, 6, 7, 1, 3, 7, 8, 12, 33])
+            groups.append({"opt": "transition", "secret": secret, "prev": _secret_of_len(rng, plen, "p%d" % gi)})
+    secrets = sorted({x for g in groups for x in (g["secret"], g["prev"]) if x} | {"stranger-secret"})
+    tokens = []
+    for sct in secrets:
+        tokens.append({"alg": rng.choice(["HS256", "HS256", "HS384", "HS512"]), "secret": sct, "claims": {"uid": len(tokens)},
+                       "exp": 3600, "nbf": None, "iat": None, "mangle": "", "raw": "", "cut": 0})
+    tokens.append({"alg": "HS256", "secret": secrets[0], "claims": {}, "exp": -3600, "nbf": None, "iat": None, "mangle": "", "raw": "", "cut": 0})
+    tokens.append({"alg": "none", "secret": secrets[0], "claims": {}, "exp": 3600, "nbf": None, "iat": None, "mangle": "", "raw": "", "cut": 0})
+    live = [gi for gi, g in enumerate(groups) if g["opt"] == "none" or len(g["secret"]) >= 8]
+    reqs = []
+    for gi in live:
+        for ti in range(len(tokens)):
+            reqs.append({"group": gi, "tok": ti, "scheme": "Bearer "})
+        reqs.append({"group": gi, "tok": -1, "scheme": ""})
+    for _ in range(rng.randint(0, 12)):
+        if live:
+            reqs.append({"group": rng.choice(live), "tok": rng.randrange(len(tokens)), "scheme": rng.choice(["Bearer ", "bearer ", ""])})
+    rng.shuffle(reqs)
+    return {"kind": "ejwt", "groups": groups, "secrets": secrets, "tokens": tokens, "reqs": reqs}
+
+
+def gen_rpc_flood(rng):
+    """thousands of calls for apps without a stored token against a healthy store, then verdicts on fresh known apps"""
+    known = ["known-%d" % i for i in range(rng.choice([6, 8, 10]))]
+    ops = [{"op": "set", "app": a, "token": "tok-" + a} for a in known]
+    pre = rng.random() < 0.5
+    if pre:
+        ops.append({"op": "call", "nomd": False, "apps": [known[0]], "tokens": ["tok-" + known[0]]})
+    ops.append({"op": "flood", "app": "ghost-", "token": rng.choice(["x", "tok-known-1"]), "n": rng.choice([1500, 3000, 4000])})
+    later = known[1:]
+    rng.shuffle(later)
+    for i, a in enumerate(later):
+        ops.append({"op": "call", "nomd": False, "apps": [a], "tokens": ["tok-" + a if i % 2 == 0 else "forged"]})
+    ops.append({"op": "call", "nomd": False, "apps": ["never-stored"], "tokens": ["x"]})
+    return {"kind": "rpc", "strict": rng.random() < 0.5, "ops": ops}
+
+
 def generate(rng, tier, n):
     cases = []
     if tier == "thorough":
@@ -474,9 +531,13 @@ def generate(rng, tier, n):
             cases.append(gen_jwt(rng))
         elif r < 0.76:
             cases.append(gen_sig(rng))
-        elif r < 0.84:
+        elif r < 0.82:
             cases.append(gen_grp(rng))
-        elif r < 0.91:
+        elif r < 0.875:
+            cases.append(gen_ejwt(rng))
+        elif r < 0.895:
+            cases.append(gen_rpc_flood(rng))
+        elif r < 0.93:
             cases.append(gen_rpc(rng))
         else:
             cases.append(gen_rpci(rng))
@@ -504,6 +565,12 @@ def search(rng, problems):
         p = gen_parser(rng)
         p["secret"], p["prev"] = SECRETS[0], SECRETS[1]
         out.append(p)
+    for _ in range(20):
+        out.append(gen_ejwt(rng))
+    for strict in (False, True, False, True):
+        c = gen_rpc_flood(rng)
+        c["strict"] = strict
+        out.append(c)
     for _ in range(25):
         out.append(gen_grp(rng))
         out.append(gen_rpci(rng))
@@ -673,7 +740,70 @@ def rpc_steps(case):
     return out
 
 
+def enc_ejwt(case, obs):
+    sid = {"": 0}
+    for x in case["secrets"]:
+        sid[x] = len(sid)
+    groups = []
+    for g in case["groups"]:
+        if g["opt"] == "none":
+            groups.append("JNone")
+        elif g["opt"] == "jwt":
+            groups.append("(JJwt %s %s)" % (cN(sid[g["secret"]]), cZ(len(g["secret"].encode()))))
+        else:
+            groups.append("(JTransition %s %s %s %s)" % (cN(sid[g["secret"]]), cZ(len(g["secret"].encode())), cN(sid[g["prev"]]), cZ(len(g["prev"].encode()))))
+    intern = Intern()
+    table = []
+    for hi, per in enumerate(obs["oracle"]):
+        for x in case["secrets"]:
+            table.append(cpair(cpair(cpair(cN(0), cN(sid[x])), cN(hi + 1)), _verdict(per[x], intern)))
+    rows = ["(mker %d%%nat %s %s %s)" % (rq["group"], cN(r["header"] + 1), cZ(r["status"]), cbool(r["ran"]))
+            for rq, r in zip(case["reqs"], obs["rows"])]
+    return "CEJwt (mkej %s %s %s %s)" % (clist(groups), clist([cbool(b) for b in obs["confpanic"]]), clist(table), clist(rows))
+
+
+def enc_rpcf(case, obs):
+    """an RPC history containing flood ops"""
+    ids = {"": 0}
+
+    def sid(s):
+        if s not in ids:
+            ids[s] = len(ids)
+        return ids[s]
+    store, down, ops = {}, False, []
+    rows = iter(obs["rows"])
+    base = 1000000
+    for op in case["ops"]:
+        k = op["op"]
+        if k == "set":
+            store[op["app"]] = op["token"]
+        elif k == "del":
+            store.pop(op["app"], None)
+        elif k == "down":
+            down = True
+        elif k == "up":
+            down = False
+        elif k == "flood":
+            row = next(rows)
+            hist = row["flood"]
+            code = int(next(iter(hist))) if len(hist) == 1 else -2     # not uniform: a code no model produces
+            st = clist([cpair(cN(sid(a)), cN(sid(t))) for a, t in sorted(store.items())])
+            ops.append("(OFlood %s %s %s %s %s)" % (cN(op["n"]), cN(base), cN(sid(op["token"])), st, cZ(code)))
+            base += op["n"] + 10
+        elif k == "call":
+            row = next(rows)
+            st = clist([cpair(cN(sid(a)), cN(sid(t))) for a, t in sorted(store.items())])
+            if op.get("nomd"):
+                md = "None"
+            else:
+                md = "(Some %s)" % cpair(clist([cN(sid(a)) for a in (op.get("apps") or [])]), clist([cN(sid(t)) for t in (op.get("tokens") or [])]))
+            ops.append("(OCall (mkrs %s %s %s %s))" % (cbool(down), st, md, cZ(row["code"])))
+    return "CRpcF (mkrf %s %s)" % (cbool(case["strict"]), clist(ops))
+
+
 def enc_rpc(case, obs):
+    if any(o["op"] == "flood" for o in case["ops"]):
+        return enc_rpcf(case, obs)
     ids = {"": 0}
 
     def sid(s):
@@ -740,7 +870,7 @@ PANIC_TERM = "CRpc (mkrc true [mkrs false [] None (0)%Z])"
 def encode(case, obs):
     if "driver_panic" in obs:
         return PANIC_TERM
-    return {"parser": enc_parser, "jwt": enc_jwt, "sig": enc_sig, "rpc": enc_rpc, "grp": enc_grp, "rpci": enc_rpci}[case["kind"]](case, obs)
+    return {"parser": enc_parser, "jwt": enc_jwt, "sig": enc_sig, "rpc": enc_rpc, "grp": enc_grp, "rpci": enc_rpci, "ejwt": enc_ejwt}[case["kind"]](case, obs)
 
 
 # ------------------------------------------------------------------------------------------- evidence
@@ -756,7 +886,7 @@ def nontrivial(case, obs):
         return len(rans) == 2
     if k == "sig":
         return case["method"] in ("GET", "POST", "PUT", "DELETE") and not case["noheader"] and case["intent"]["wellformed"]
-    if k == "grp":
+    if k in ("grp", "ejwt"):
         return len({r["ran"] for r in obs["rows"]}) == 2
     codes = {r["code"] == 0 for r in obs["rows"]}
     return len(codes) == 2
@@ -814,6 +944,20 @@ def bucket(case, obs):
             out.append("sig:clock-ticked")
         if case["intent"]["variant"] == "routed-path" and obs["ran"]:
             out.append("note:routed-path-differs-from-signed-path-accepted")
+    elif k == "ejwt":
+        for gi, g in enumerate(case["groups"]):
+            out.append("ejwt:%s:secret-len=%s:prev-len=%s%s" % (g["opt"], "<8" if len(g["secret"]) < 8 else ">=8",
+                       ("0" if not g["prev"] else ("1-7" if len(g["prev"]) < 8 else ">=8")) if g["opt"] == "transition" else "-",
+                       ":option-panicked" if obs["confpanic"][gi] else ""))
+        for rq, r in zip(case["reqs"], obs["rows"]):
+            g = case["groups"][rq["group"]]
+            tk = case["tokens"][rq["tok"]] if rq["tok"] >= 0 else None
+            if tk and g["opt"] == "transition" and g["prev"] and tk["secret"] == g["prev"] and tk["exp"] == 3600 and tk["alg"] != "none":
+                out.append("ejwt:signed-with-prev(len %s):%d" % ("1-7" if len(g["prev"]) < 8 else ">=8", r["status"]))
+            elif tk and tk["secret"] == g["secret"] and g["opt"] != "none":
+                out.append("ejwt:signed-with-current:%d" % r["status"])
+            else:
+                out.append("ejwt:other:%d" % r["status"])
     elif k == "grp":
         out.append("grp:groups=%d" % len(case["groups"]))
         for rq, r in zip(case["reqs"], obs["rows"]):
@@ -831,7 +975,13 @@ def bucket(case, obs):
             for op, r in zip([o for o in case["ops"] if o["op"] == "call"], obs["rows"]):
                 out.append("rpci:%s:%s:%s" % (op["mode"], "ran" if r["ran"] else "blocked", op["method"] or "<empty>"))
         for r in obs["rows"]:
-            out.append("rpc:code=%d" % r["code"])
+            if r.get("flood"):
+                out.append("rpc:flood:" + ",".join("%s x%d" % (c, n) for c, n in sorted(r["flood"].items())))
+            else:
+                out.append("rpc:code=%d" % r["code"])
+        if any(o["op"] == "flood" for o in case["ops"]):
+            after = [r["code"] for r in obs["rows"][[i for i, r in enumerate(obs["rows"]) if r.get("flood")][0] + 1:]]
+            out.append("rpc:after-flood:" + ",".join("%d x%d" % (c, after.count(c)) for c in sorted(set(after))))
         if any(o["op"] == "down" for o in case["ops"]):
             out.append("rpc:outage")
     return out
@@ -853,6 +1003,14 @@ def explain(case, obs):
         return ("the signature gate PANICKED instead of answering (%s): a correctly signed request announcing type=1 whose body "
                 "base64-decodes to the empty string reaches codec.EcbDecrypt -> pkcs5UnPadding, which indexes src[len(src)-1]; "
                 "expected 400 from cryptohandler (c04_gate_panic_iff: the gate panics only if decryptBody does)" % obs.get("panicval"))
+    if k == "ejwt":
+        return ("a JWT-protected route group configured through api.WithJwt / api.WithJwtTransition contradicts C04.Exec.ejwt_spec_ok: the handler "
+                "must run iff the token verifies under the group's current secret or under its previous secret, whatever the previous secret's "
+                "length (1..7 bytes included), else 401 (c04_jwt_engine_options)")
+    if k == "rpc" and any(o["op"] == "flood" for o in case["ops"]):
+        return ("after thousands of Authenticate calls for apps without a stored token (healthy store) a later verdict changed: a known app with the "
+                "right token must still be accepted and a forged token rejected; 'not found' answers must leave no trace "
+                "(c04_rpc_not_found_no_memory, c04_rpc_table)")
     if k == "grp":
         return ("a signature-protected route group of the engine answered a request against C04.Exec.grp_spec_ok: on group i's routes the handler "
                 "must run iff the (fingerprint, key) pair the client used is configured FOR GROUP i (and timestamp/HMAC are right under group i's "
